@@ -40,7 +40,10 @@ RULE = ("TLC (GEN_SpatialIndex_[a-f].cfg) emits 12 lanelet families (disjoint, e
         "9 obstacles (static / trajectory / set-based; rect, disc, polygon, groups; one appearing late). Sequences of length 1 get "
         "the full query set incl. obstacles, longer ones positions + shapes.  GEN_SpatialIndex_shape.cfg emits 16 shapes "
         "x 81..162 probes with probe classes, executed on 10 shape routes (ctor, deepcopy, pickle, xml, pb, translate, rotate, "
-        "local, attribute assignment cold / warm).  Thorough adds the sequences of length 3 of two families "
+        "local, attribute assignment cold / warm).  SHAPE HISTORIES (275): 6 shape objects x [export by shapely_object / contains_point / "
+        "find_lanelet_by_shape / get_obstacles]? x one attribute setter x [read vertices | draw]? x queries (contains_point and "
+        "exported geometry on the probe grid of the new shape, find_lanelet_by_shape with that object, get_obstacles with an "
+        "obstacle whose occupancy owns it), expectation from the attributes read back at the end.  Thorough adds the sequences of length 3 of two families "
         "(GEN_SpatialIndex_deep_[xy].cfg) and the dense candidate sets.  Plus 42 fixed cases on networks without lanelets and "
         "seeded random box networks / queries. "
         "distinct_nontrivial = distinct (family, route sequence) with >= 2 lanelets + distinct (shape, route).")
@@ -80,10 +83,10 @@ def model_check(ctx):
     mcs = [("MC_SpatialIndex4.cfg", 8)] if ctx.thorough else [("MC_SpatialIndex.cfg", 3), ("MC_SpatialIndex3.cfg", 3)]
     with cf.ThreadPoolExecutor(max_workers=10) as ex:       # small heaps: up to 10 JVMs side by side
         gen = [ex.submit(_run_gen, c) for c in _gen_cfgs(ctx)]
-        mc = [ex.submit(tlc.model_check, "MC_SpatialIndex", cfg, tag(cfg), coverage=True, workers=w, xmx="3g") for cfg, w in mcs]
+        mc = [ex.submit(tlc.model_check, "MC_SpatialIndex", cfg, tag(cfg), coverage=True, workers=w, xmx="3g", timeout=3600) for cfg, w in mcs]
         dev = [ex.submit(tlc.expect_violation, "MC_SpatialIndex", "DEV_SpatialIndex_%d.cfg" % i,
-                         tag("DEV_SpatialIndex_%d.cfg" % i), {6: "QueriesExact", 8: "OriginalIsolated"}.get(i, "IndexMirrors"), workers=1, xmx="1g")
-               for i in (1, 2, 3, 4, 5, 7, 8, 9, 6)]   # 9 = DEV_DrawMovesVertices (seed C06-6);  # 7 = DEV_DeferredRemoveKeepsPolygon (seed C06-2), 8 = DEV_ForkSharesLanelets (seed C06-5), 6 = DEV_DiscHalfRadius
+                         tag("DEV_SpatialIndex_%d.cfg" % i), {6: "QueriesExact", 8: "OriginalIsolated", 10: "ShapeAnswers"}.get(i, "IndexMirrors"), workers=1, xmx="1g")
+               for i in (1, 2, 3, 4, 5, 7, 8, 9, 10, 6)]   # 10 = DEV_RectKeepsExportedPolygon (seed C06-7);   # 9 = DEV_DrawMovesVertices (seed C06-6);  # 7 = DEV_DeferredRemoveKeepsPolygon (seed C06-2), 8 = DEV_ForkSharesLanelets (seed C06-5), 6 = DEV_DiscHalfRadius
         for f in mc:
             ctx._acc(f.result(), "holds")
         for f in dev:
@@ -108,8 +111,11 @@ def cases(ctx):
     raw = [c for cfg in _gen_cfgs(ctx) if "_deep_" not in cfg for c in _GEN[cfg]]
     fams = {c["fam"]: c for c in raw if c["kind"] == "family"}
     have = {(c["fam"], json_key(c["routes"])) for c in raw if c["kind"] == "route"}
-    raw += [c for cfg in _gen_cfgs(ctx) if "_deep_" in cfg for c in _GEN[cfg]         # thorough: only the longer sequences
+    deep = [c for cfg in _gen_cfgs(ctx) if "_deep_" in cfg for c in _GEN[cfg]         # thorough: only the longer sequences
             if c["kind"] == "route" and len(c["routes"]) >= 3 and (c["fam"], json_key(c["routes"])) not in have]
+    if len(deep) > 8000:                                                  # a seeded sample keeps the tier inside its time budget
+        deep = ctx.rng.sample(deep, 8000)
+    raw += deep
     out = []
     for c in raw:
         if c["kind"] == "route":
@@ -136,6 +142,8 @@ def cases(ctx):
                         "obstacles": f["obstacles"] if full or forked or c["routes"][-1]["r"] == "draw" or
                         (ctx.thorough and len(c["routes"]) == 2) else [],
                         "xpolys": c["polys"]})
+        elif c["kind"] == "history":
+            out.append(dict(c, src="tlc"))
         elif c["kind"] == "shape":
             for r in _SHAPE_ROUTES:
                 if c["shape"]["k"] == "group" and r.startswith("set_"):
@@ -240,6 +248,8 @@ def _random_cases(ctx, fams):
 
 
 def nontrivial(case):
+    if case["kind"] == "history":
+        return ("history", json_key(case["shape"]), json_key(case["steps"]))
     if case["kind"] == "shape":
         return ("shape", case["name"], case["sroute"])
     if len(case["lanelets"]) < 2:
@@ -814,8 +824,120 @@ def _exec_shape(case):
     return {"ev": ev}
 
 
+def _draw_once(drawable):
+    import matplotlib
+    matplotlib.use("Agg")
+    import matplotlib.pyplot as plt
+    from commonroad.visualization.mp_renderer import MPRenderer
+    fig, ax = plt.subplots(figsize=(2, 2), dpi=40)
+    try:
+        rnd = MPRenderer(ax=ax)
+        drawable.draw(rnd)
+        rnd.render()
+        fig.canvas.draw()
+    finally:
+        plt.close(fig)
+
+
+def _exec_history(case):
+    """One shape OBJECT through export -> attribute assignment -> (vertices read / drawn) -> queries; the expectation of every
+    query is computed from the attributes the object has at that moment (alpha of the object)."""
+    import numpy as np
+    from commonroad.geometry.shape import Rectangle, ShapeGroup
+    from commonroad.prediction.prediction import Occupancy, SetBasedPrediction
+    from commonroad.scenario.lanelet import LaneletNetwork
+    from commonroad.scenario.obstacle import DynamicObstacle, ObstacleType
+    from crv import gamma
+    lls = []
+    for q in case["net"]:
+        h = len(q["v"]) // 2
+        lls.append({"id": q["id"], "r": [[x / 2.0, y / 2.0] for x, y in q["v"][:h]],
+                    "l": [[x / 2.0, y / 2.0] for x, y in q["v"][h:][::-1]]})
+    net = LaneletNetwork.create_from_lanelet_list(g_lanelets(lls))
+    polys = a_net(net)
+    shape = g_shape(case["shape"])
+    group = isinstance(shape, ShapeGroup)
+    target = shape.shapes[0] if group else shape
+    final = case["final"]["ms"][0] if group else case["final"]
+    owner = DynamicObstacle(77, ObstacleType.CAR, Rectangle(1.0, 1.0), gamma.init_state(-40.0, -40.0),
+                            SetBasedPrediction(1, [Occupancy(1, shape)]))
+    routes = [{"r": "history", "a": []}]
+    kind = _KIND[case["shape"]["k"]]
+    first = sorted(net.lanelets, key=lambda q: q.lanelet_id)[0]
+    ev = []
+    try:
+        for st in case["steps"]:
+            r = st["r"]
+            if r == "export":
+                how = st["a"][0]
+                if how == 1 or (how == 3 and group):                    # find_lanelet_by_shape takes no groups
+                    [m.shapely_object for m in (shape.shapes if group else [shape])]
+                elif how == 2:
+                    shape.contains_point(np.array([0.25, 0.25]))
+                elif how == 3:
+                    net.find_lanelet_by_shape(shape)
+                else:
+                    first.get_obstacles([owner], 1)
+            elif r == "set_center":
+                target.center = _pt(final["c"])
+            elif r == "set_orientation":
+                target.orientation = _angle(final["rot"])
+            elif r == "set_length":
+                target.length = float(final["l"])
+            elif r == "set_width":
+                target.width = float(final["w"])
+            elif r == "set_radius":
+                target.radius = final["r"] / 2.0
+            elif r == "set_vertices":
+                target.vertices = np.array([[x / 2.0, y / 2.0] for x, y in final["v"]])
+            elif r == "read":
+                if st["a"][0] == 1:
+                    target.vertices
+                else:
+                    _draw_once(shape)
+        desc = a_shape(shape)
+    except MachineryError:
+        raise
+    except Exception as ex:
+        return {"ev": [{"op": "contains_point", "route": "history", "routes": routes, "shape": case["final"], "pts": [], "res": [],
+                        "exc": _exc(ex), "sig": "shape-history/contains_point/%s" % kind}]}
+    for g in case["probes"]:
+        common = {"route": "history", "routes": routes, "shape": desc, "pts": g["pts"]}
+        e = dict(common, op="contains_point", res=[], exc="", sig="shape-history/contains_point/%s" % kind)
+        try:
+            e["res"] = [int(bool(shape.contains_point(_pt(p)))) for p in g["pts"]]
+        except Exception as ex:
+            e["exc"] = _exc(ex)
+        ev.append(e)
+        e2 = dict(common, op="exported_covers", res=[], cp=e["res"], exc="", sig="shape-history/exported/%s" % kind)
+        try:
+            e2["res"] = [_covers(shape, p) for p in g["pts"]]
+        except Exception as ex:
+            e2["exc"] = _exc(ex)
+        ev.append(e2)
+    common = {"route": "history", "routes": routes, "polys": polys}
+    if not group:
+        e = dict(common, op="find_by_shape", shape=desc, res=[], exc="", sig="shape-history/find_by_shape/%s" % kind)
+        try:
+            e["res"] = [int(x) for x in net.find_lanelet_by_shape(shape)]
+        except Exception as ex:
+            e["exc"] = _exc(ex)
+        ev.append(e)
+    for la in sorted(net.lanelets, key=lambda q: q.lanelet_id):
+        e = dict(common, op="get_obstacles", lid=int(la.lanelet_id), t=1, obs=[{"id": 77, "occ": _occ(owner, 1)}], res=[], exc="",
+                 sig="shape-history/get_obstacles/%s" % kind)
+        try:
+            e["res"] = [int(o.obstacle_id) for o in la.get_obstacles([owner], 1)]
+        except Exception as ex:
+            e["exc"] = _exc(ex)
+        ev.append(e)
+    return {"ev": ev}
+
+
 def execute(case):
     use_repo()
+    if case["kind"] == "history":
+        return _exec_history(case)
     return _exec_net(case) if case["kind"] == "net" else _exec_shape(case)
 
 
